@@ -280,6 +280,7 @@ private theorem declares_reserves (cfg : Cfg) (fuel : Nat) (A : SProg) (n : Stri
     | sow c nm e => exact absurd hA (by simp [declares])
     | perturb c nm e => exact absurd hA (by simp [declares])
     | call slot a w => exact absurd hA (by simp [declares])
+    | nested b m V a => exact absurd hA (by simp [declares])
 
 private theorem declares_blocked (cfg : Cfg) (fuel : Nat) (B : SProg) (n : String) (co' : Option String)
     (hB : declares B n co') (π : Path) (x : Int) (l l1 : Local) (s s1 : Store)
@@ -313,6 +314,7 @@ private theorem declares_blocked (cfg : Cfg) (fuel : Nat) (B : SProg) (n : Strin
     | sow c nm e => exact absurd hB (by simp [declares])
     | perturb c nm e => exact absurd hB (by simp [declares])
     | call slot a w => exact absurd hB (by simp [declares])
+    | nested b m V a => exact absurd hB (by simp [declares])
 
 /-- **Name clashes raise.**  In one module body, after a declaration `A` of name `n` (a submodule, a
 variable or a parameter) and any statements `Q` in between, a second declaration `B` of the same
@@ -637,6 +639,11 @@ example : (eval {} 10 (.seq (.child "A" (some "foo") .skip) (.seq (.bind (.const
 
 /-- a submodule and a variable of the same name clash -/
 example : (eval {} 10 (.seq (.child "A" (some "foo") .skip) (.seq .skip (.var "stats" "foo" [] (.const 0))))
+    [] 0 {} (Scope.bind .tt Vars.empty ["params"])).1 = .error .nameInUse := by decide +kernel
+
+/-- three steps: a name used in collection A, then (legally) in B, then again in B — the reservations keep the
+whole set of collections of a name, so the third declaration raises -/
+example : (eval {} 10 (.seq (.var "stats" "v" [] (.const 1)) (.seq (.var "cache" "v" [] (.const 2)) (.var "cache" "v" [3] (.const 5))))
     [] 0 {} (Scope.bind .tt Vars.empty ["params"])).1 = .error .nameInUse := by decide +kernel
 
 /-- two variables of different collections with one name do not -/
